@@ -13,6 +13,7 @@ BUILD_DIR = os.environ.get('VERIF_BUILD', os.path.join(VERIF, 'build'))   # VERI
 OBLIGATION_PATTERNS = [
     (re.compile(r'^postcondition not satisfied'), 'postcondition'),
     (re.compile(r'^precondition not satisfied'), 'precondition'),
+    (re.compile(r'^precondition not met'), 'precondition'),   # custom texts of vstd preconditions, e.g. `precondition not met: index in bounds for this access`
     (re.compile(r'^assertion failed'), 'assertion'),
     (re.compile(r'^assertion not satisfied'), 'assertion'),
     (re.compile(r'^invariant not satisfied before loop'), 'invariant-entry'),
